@@ -7,7 +7,7 @@ from . import compositelib as L
 OCAML = ["composite"]
 GO = ["composite"]
 PROP = "props/C09.v"
-PROOFS = ["proofs/CompositeC09.v", "proofs/CompositeProgress.v", "proofs/CompositeExact.v", "proofs/CompositeProto.v",
+PROOFS = ["proofs/CompositeC09.v", "proofs/CompositeProgress.v", "proofs/CompositeExact.v", "proofs/CompositeExactMs.v", "proofs/CompositeProto.v",
           "proofs/CompositeMeasure.v", "proofs/CompositeTrace.v", "proofs/CompositeLink2.v"] + L.PROOFS_COMMON
 
 
@@ -19,6 +19,7 @@ def run(run):
     fams = [("corpus:corpus/C09/stop-between-setconfig-and-boot.jsonl", 0, 0),
             ("corpus:corpus/C09/stale-stop-on-restarted-child.jsonl", 0, 0),
             ("corpus:corpus/C09/error-during-reload.jsonl", 0, 0), ("corpus:corpus/C09/duplicate-name-objects.jsonl", 0, 0),
+            ("corpus:corpus/C09/membership-multiset.jsonl", 0, 0),
             ("f8", 4, run.seed), ("stale", 4, run.seed), ("errwin", 15 if quick else 150, run.seed), ("multifail", 20 if quick else 200, run.seed + 5),
             ("c11dup", 8 if quick else 40, run.seed + 3),
             ("failreload", 48 if quick else 800, run.seed + 7), ("stoperr", 36 if quick else 600, run.seed + 8),
